@@ -276,6 +276,45 @@ def run(unit):
                                     r.violation('process JSON does not mirror the AST', {'text': text}, 'differs', size=len(text))
                             except ValueError as e:
                                 r.violation('process stdout is not strict JSON', {'text': text}, str(e), size=len(text))
+            # one process, both modes, both orders: a -p call and a file call must not influence each other
+            two = os.path.join(d, 'two.hpl')
+            with open(two, 'w', encoding='utf-8') as fh:
+                fh.write('globally: no a\n# id: second\nafter b: some c within 2 s\n')
+            script = (
+                'import sys, io, json, contextlib\n'
+                'from hpl.cli import main\n'
+                'out = []\n'
+                'for argv in json.loads(sys.argv[1]):\n'
+                '    buf = io.StringIO()\n'
+                '    with contextlib.redirect_stdout(buf), contextlib.redirect_stderr(io.StringIO()):\n'
+                '        rv = main(argv)\n'
+                '    out.append([rv, buf.getvalue()])\n'
+                'print(json.dumps(out))\n'
+            )
+            calls_p = ['-p', '-o', 'json', 'globally: no a']
+            calls_f = ['-o', 'json', two]
+            for order in ([calls_p, calls_f, calls_p], [calls_f, calls_p, calls_f], [calls_f, calls_f], [calls_p, calls_p]):
+                r.count('evaluations')
+                r.count('states')
+                r.count('transitions', len(order))
+                pr = subprocess.run([sys.executable, '-c', script, json.dumps(order)], capture_output=True, text=True, env=env, timeout=300)
+                try:
+                    results = json.loads(pr.stdout)
+                except ValueError:
+                    r.violation('one process, several calls: the driver crashed', {'order': [c[0] for c in order]}, pr.stderr[-300:], size=len(order))
+                    continue
+                for argv, (rv, outp) in zip(order, results):
+                    what_ = 'property' if argv[0] == '-p' else 'file'
+                    ok = rv == 0
+                    try:
+                        doc = strict_loads(outp)
+                        ok = ok and ((what_ == 'property' and 'scope' in doc and 'properties' not in doc) or (what_ == 'file' and len(doc.get('properties', [])) == 2))
+                    except ValueError:
+                        ok = False
+                    if not ok:
+                        r.violation('the result of a call depends on an earlier call in the same process', {'order': [c[0] for c in order]},
+                                    f'calls {[("-p" if c[0] == "-p" else "file") for c in order]}: the {what_} call returned {rv} with output {outp[:100]!r}', size=len(order))
+                        break
         finally:
             shutil.rmtree(d, ignore_errors=True)
         r.sample({'process': 'python -m hpl -p -o json ' + VALID_PROPS[5]})
@@ -302,7 +341,7 @@ def replay(w):
 def describe(tier):
     b = bounds(tier)
     return {
-        'rule': f"-p: every property skeleton (widths <= {b['max_width']}) x 3 decorations, 11 fixed valid texts covering every node kind incl. INF/NAN/PI/E and metadata, 8 invalid texts (syntax, sanity, type, unknown function, duplicate metadata, empty) x with/without -o json x short/long options; files: all 1- and 2-property files and a fifth of the 3-property files over the 11 valid texts, every invalid text at positions 0..2, empty / blank / dangling-annotation files, a missing file and a directory x with/without -o json; real processes: one text per outcome class x 4 configurations. A transition = one hpl.cli.main call (or process).",
+        'rule': f"-p: every property skeleton (widths <= {b['max_width']}) x 3 decorations, 11 fixed valid texts covering every node kind incl. INF/NAN/PI/E and metadata, 8 invalid texts (syntax, sanity, type, unknown function, duplicate metadata, empty) x with/without -o json x short/long options; files: all 1- and 2-property files and a fifth of the 3-property files over the 11 valid texts, every invalid text at positions 0..2, empty / blank / dangling-annotation files, a missing file and a directory x with/without -o json; real processes: one text per outcome class x 4 configurations; and one process that makes 2-3 calls mixing -p and file mode in both orders (expectations hard-coded, not taken from the library). A transition = one hpl.cli.main call (or process).",
         'bounds': b,
         'exhaustive': True,
         'assumptions': ['the library parser called directly decides "parses"; strict JSON = json.loads rejecting NaN/Infinity constants'],
